@@ -200,4 +200,362 @@ theorem Interleaving.sublist {ss : List (List Res)} {m : List Res} (h : Interlea
         rw [List.getElem?_set_ne hij]; exact hi
       exact List.Sublist.cons x (ih i s this)
 
+/-! ### The timer-discipline merger of the driver produces merge orders -/
+
+theorem pickMin_some_ne_none (ss : List (List (Nat × Res))) (i : Nat) (b : Nat × Nat × Res × List (Nat × Res)) :
+    pickMin ss i (some b) ≠ none := by
+  induction ss generalizing i b with
+  | nil => simp [pickMin]
+  | cons s ss ih =>
+    obtain ⟨ib, tb, rb, tlb⟩ := b
+    cases s with
+    | nil => simpa [pickMin] using ih (i + 1) _
+    | cons x tl =>
+      obtain ⟨t, r⟩ := x
+      simp only [pickMin]
+      split <;> exact ih (i + 1) _
+
+theorem pickMin_none (ss : List (List (Nat × Res))) (i : Nat) (h : pickMin ss i none = none) :
+    ∀ s ∈ ss, s = [] := by
+  induction ss generalizing i with
+  | nil => simp
+  | cons s ss ih =>
+    cases s with
+    | nil =>
+      simp only [pickMin] at h
+      intro s hs
+      rcases List.mem_cons.1 hs with rfl | hs
+      · rfl
+      · exact ih (i + 1) h s hs
+    | cons x tl =>
+      obtain ⟨t, r⟩ := x
+      simp only [pickMin] at h
+      exact absurd h (pickMin_some_ne_none ss (i + 1) _)
+
+theorem pickMin_spec (ss : List (List (Nat × Res))) (i : Nat) (best : Option (Nat × Nat × Res × List (Nat × Res)))
+    (j t : Nat) (r : Res) (tl : List (Nat × Res)) (h : pickMin ss i best = some (j, t, r, tl)) :
+    best = some (j, t, r, tl) ∨ (i ≤ j ∧ ss[j - i]? = some ((t, r) :: tl)) := by
+  induction ss generalizing i best with
+  | nil => left; simpa [pickMin] using h
+  | cons s ss ih =>
+    have shift : ∀ {b}, pickMin ss (i + 1) b = some (j, t, r, tl) →
+        b = some (j, t, r, tl) ∨ (i ≤ j ∧ (s :: ss)[j - i]? = some ((t, r) :: tl)) := by
+      intro b hb
+      rcases ih (i + 1) b hb with h1 | ⟨h1, h2⟩
+      · exact .inl h1
+      · right
+        refine ⟨by omega, ?_⟩
+        have : j - i = (j - (i + 1)) + 1 := by omega
+        rw [this, List.getElem?_cons_succ]; exact h2
+    cases s with
+    | nil => simp only [pickMin] at h; exact shift h
+    | cons x tl0 =>
+      obtain ⟨t0, r0⟩ := x
+      have here : ∀ {b}, pickMin ss (i + 1) (some (i, t0, r0, tl0)) = some (j, t, r, tl) →
+          b = some (j, t, r, tl) ∨ (i ≤ j ∧ (((t0, r0) :: tl0) :: ss)[j - i]? = some ((t, r) :: tl)) := by
+        intro b hb
+        rcases shift hb with h1 | h1
+        · right
+          simp only [Option.some.injEq, Prod.mk.injEq] at h1
+          obtain ⟨rfl, rfl, rfl, rfl⟩ := h1
+          simp
+        · exact .inr h1
+      cases best with
+      | none => simp only [pickMin] at h; exact here h
+      | some b =>
+        obtain ⟨ib, tb, rb, tlb⟩ := b
+        simp only [pickMin] at h
+        split at h
+        · exact here h
+        · exact shift h
+
+theorem sum_length_set (ss : List (List (Nat × Res))) (j : Nat) (x : Nat × Res) (tl : List (Nat × Res))
+    (h : ss[j]? = some (x :: tl)) :
+    ((ss.set j tl).map List.length).sum + 1 = (ss.map List.length).sum := by
+  induction ss generalizing j with
+  | nil => simp at h
+  | cons s ss ih =>
+    cases j with
+    | zero => simp at h; subst h; simp; omega
+    | succ j =>
+      simp at h
+      have := ih j h
+      simp only [List.set_cons_succ, List.map_cons, List.sum_cons]
+      omega
+
+theorem le_sum_of_mem (l : List Nat) (x : Nat) (h : x ∈ l) : x ≤ l.sum := by
+  induction l with
+  | nil => cases h
+  | cons a l ih =>
+    rcases List.mem_cons.1 h with rfl | h
+    · simp
+    · have := ih h; simp only [List.sum_cons]; omega
+
+/-- Forget the virtual times. -/
+def untimed (ss : List (List (Nat × Res))) : List (List Res) := ss.map (·.map Prod.snd)
+
+theorem untimed_set (ss : List (List (Nat × Res))) (j : Nat) (tl : List (Nat × Res)) :
+    untimed (ss.set j tl) = (untimed ss).set j (tl.map Prod.snd) := by
+  simp [untimed, List.map_set]
+
+/-- The order in which the timer discipline delivers elements is a merge order in the sense of
+`Interleaving`, so the property theorems cover every run of the `T` mode of the correspondence. -/
+theorem timeMerge_interleaving (fuel : Nat) (ss : List (List (Nat × Res)))
+    (h : (ss.map List.length).sum ≤ fuel) :
+    Interleaving (untimed ss) ((timeMerge fuel ss).map Prod.snd) := by
+  induction fuel generalizing ss with
+  | zero =>
+    simp only [timeMerge, List.map_nil]
+    apply Interleaving.nil
+    intro s hs
+    obtain ⟨s', hs', rfl⟩ := List.mem_map.1 hs
+    have : s'.length ≤ (ss.map List.length).sum := le_sum_of_mem _ _ (List.mem_map.2 ⟨s', hs', rfl⟩)
+    have : s'.length = 0 := by omega
+    simp [List.length_eq_zero_iff.1 this]
+  | succ fuel ih =>
+    simp only [timeMerge]
+    cases hp : pickMin ss 0 none with
+    | none =>
+      simp only [List.map_nil]
+      apply Interleaving.nil
+      intro s hs
+      obtain ⟨s', hs', rfl⟩ := List.mem_map.1 hs
+      simp [pickMin_none ss 0 hp s' hs']
+    | some b =>
+      obtain ⟨j, t, r, tl⟩ := b
+      rcases pickMin_spec ss 0 none j t r tl hp with h1 | ⟨_, h2⟩
+      · cases h1
+      · simp only [Nat.sub_zero] at h2
+        simp only [List.map_cons]
+        refine Interleaving.cons (i := j) (rest := tl.map Prod.snd) ?_ ?_
+        · simp [untimed, h2]
+        · rw [← untimed_set]
+          apply ih
+          have := sum_length_set ss j (t, r) tl h2
+          omega
+
+/-! ### The channel-discipline merger of the driver feeds complete merge orders -/
+
+/-- An additional empty stream does not change the merge orders. -/
+theorem Interleaving.insert_nil {L : List (List Res)} {m : List Res} (h : Interleaving L m) :
+    ∀ L₁ L₂, L = L₁ ++ L₂ → Interleaving (L₁ ++ [] :: L₂) m := by
+  induction h with
+  | @nil ss hall =>
+    intro L₁ L₂ hL
+    subst hL
+    apply Interleaving.nil
+    intro s hs
+    simp only [List.mem_append, List.mem_cons] at hs
+    rcases hs with hs | rfl | hs
+    · exact hall s (by simp [hs])
+    · rfl
+    · exact hall s (by simp [hs])
+  | @cons ss i x rest m hi _ ih =>
+    intro L₁ L₂ hL
+    subst hL
+    by_cases hlt : i < L₁.length
+    · have h1 : (L₁ ++ [] :: L₂)[i]? = some (x :: rest) := by
+        rw [List.getElem?_append_left hlt]
+        rw [List.getElem?_append_left hlt] at hi; exact hi
+      refine Interleaving.cons (i := i) h1 ?_
+      have := ih (L₁.set i rest) L₂ (by rw [List.set_append_left _ _ hlt])
+      rwa [List.set_append_left _ _ hlt]
+    · have hge : L₁.length ≤ i := by omega
+      have hi2 : L₂[i - L₁.length]? = some (x :: rest) := by
+        rw [List.getElem?_append_right hge] at hi; exact hi
+      have h1 : (L₁ ++ [] :: L₂)[i + 1]? = some (x :: rest) := by
+        rw [List.getElem?_append_right (by omega)]
+        have : i + 1 - L₁.length = (i - L₁.length) + 1 := by omega
+        rw [this, List.getElem?_cons_succ]; exact hi2
+      refine Interleaving.cons (i := i + 1) h1 ?_
+      have := ih L₁ (L₂.set (i - L₁.length) rest) (by rw [List.set_append_right _ _ hge])
+      rw [List.set_append_right _ _ (by omega)]
+      have e : i + 1 - L₁.length = (i - L₁.length) + 1 := by omega
+      rw [e, List.set_cons_succ]
+      exact this
+
+theorem split_at (ss : Live) (k : Nat) (v : Option (List Res)) (h : ss[k]? = some v) :
+    ss = ss.take k ++ v :: ss.drop (k + 1) ∧
+      ∀ v', ss.set k v' = ss.take k ++ v' :: ss.drop (k + 1) := by
+  induction ss generalizing k with
+  | nil => simp at h
+  | cons a ss ih =>
+    cases k with
+    | zero => simp at h; subst h; simp
+    | succ k =>
+      simp at h
+      obtain ⟨h1, h2⟩ := ih k h
+      refine ⟨?_, ?_⟩
+      · simp only [List.take_succ_cons, List.drop_succ_cons, List.cons_append]
+        rw [← h1]
+      · intro v'
+        simp only [List.set_cons_succ, List.take_succ_cons, List.drop_succ_cons, List.cons_append]
+        rw [h2 v']
+
+/-- The inner events a schedule produces under the channel discipline. -/
+def schedEvents (ss : Live) : List (Option Nat) → List Inner
+  | [] => []
+  | st :: sts => (schedStep ss st).2 :: schedEvents (schedStep ss st).1 sts
+
+def schedFinal (ss : Live) : List (Option Nat) → Live
+  | [] => ss
+  | st :: sts => schedFinal (schedStep ss st).1 sts
+
+theorem runSched_polls (s : St) (ss : Live) (sched : List (Option Nat)) :
+    (runSched s ss sched).2.2 = (runPolls s (schedEvents ss sched)).2 := by
+  induction sched generalizing s ss with
+  | nil => rfl
+  | cons st sts ih => simp [runSched, runPolls, schedEvents, ih]
+
+theorem filterMap_allGone (ss : Live) (h : allGone ss = true) : ss.filterMap id = [] := by
+  induction ss with
+  | nil => rfl
+  | cons a ss ih =>
+    simp only [allGone, List.all_cons, Bool.and_eq_true] at h
+    cases a with
+    | none => simpa using ih (by simpa [allGone] using h.2)
+    | some l => simp at h
+
+/-- Events once every stream is gone: `done` for ever. -/
+theorem schedEvents_gone (ss : Live) (h : allGone ss = true) (st : Option Nat) :
+    schedStep ss st = (ss, .done) := by
+  have hk : ∀ k : Nat, ss[k]? = none ∨ ss[k]? = some none := by
+    intro k
+    cases hk : ss[k]? with
+    | none => exact .inl rfl
+    | some v =>
+      have hm := List.mem_of_getElem? hk
+      simp only [allGone, List.all_eq_true] at h
+      have := h v hm
+      cases v with
+      | none => exact .inr rfl
+      | some l => simp at this
+  cases st with
+  | none => simp [schedStep, idle, h]
+  | some k =>
+    rcases hk k with h1 | h1 <;> simp [schedStep, advance, h1, idle, h]
+
+/-- A schedule that ends with every stream gone feeds the stream a complete merge order: the
+property theorems cover every complete run of the `P` mode of the correspondence. -/
+theorem sched_feed (ss : Live) (sched : List (Option Nat)) (hne : sched ≠ [])
+    (hgone : allGone (schedFinal ss sched) = true) :
+    ∃ m, Interleaving (ss.filterMap id) m ∧ Feed m (schedEvents ss sched) := by
+  induction sched generalizing ss with
+  | nil => exact absurd rfl hne
+  | cons st sts ih =>
+    simp only [schedFinal] at hgone
+    simp only [schedEvents]
+    -- the rest of the run, from the state after this step
+    have hrest : ∀ ss', schedFinal ss' sts = schedFinal (schedStep ss st).1 sts → ss' = (schedStep ss st).1 →
+        (∃ m, Interleaving (ss'.filterMap id) m ∧ Feed m (schedEvents ss' sts)) ∨
+        (sts = [] ∧ allGone ss' = true) := by
+      intro ss' _ hs'
+      subst hs'
+      cases sts with
+      | nil => right; exact ⟨rfl, hgone⟩
+      | cons a b => left; exact ih _ (by simp) hgone
+    by_cases hg : allGone ss = true
+    · -- nothing live: this poll reports the end
+      rw [schedEvents_gone ss hg st]
+      exact ⟨[], by rw [filterMap_allGone ss hg]; exact .nil (by simp), .done⟩
+    · cases st with
+      | none =>
+        have hstep : schedStep ss none = (ss, .pending) := by simp [schedStep, idle, hg]
+        rw [hstep] at hgone ⊢
+        rcases hrest ss (by rw [hstep]) (by rw [hstep]) with ⟨m, h1, h2⟩ | ⟨rfl, h2⟩
+        · exact ⟨m, h1, .pending h2⟩
+        · exact absurd h2 hg
+      | some k =>
+        cases hk : ss[k]? with
+        | none =>
+          have hstep : schedStep ss (some k) = (ss, .pending) := by simp [schedStep, advance, hk, idle, hg]
+          rw [hstep] at hgone ⊢
+          rcases hrest ss (by rw [hstep]) (by rw [hstep]) with ⟨m, h1, h2⟩ | ⟨rfl, h2⟩
+          · exact ⟨m, h1, .pending h2⟩
+          · exact absurd h2 hg
+        | some v =>
+          obtain ⟨hsplit, hset⟩ := split_at ss k v hk
+          cases v with
+          | none =>
+            have hstep : schedStep ss (some k) = (ss, .pending) := by simp [schedStep, advance, hk, idle, hg]
+            rw [hstep] at hgone ⊢
+            rcases hrest ss (by rw [hstep]) (by rw [hstep]) with ⟨m, h1, h2⟩ | ⟨rfl, h2⟩
+            · exact ⟨m, h1, .pending h2⟩
+            · exact absurd h2 hg
+          | some l =>
+            cases l with
+            | nil =>
+              -- the stream ends
+              have hstep : schedStep ss (some k) = (ss.set k none, idle (ss.set k none)) := by
+                simp [schedStep, advance, hk]
+              rw [hstep] at hgone ⊢
+              have hfm : ss.filterMap id =
+                  (ss.take k).filterMap id ++ [] :: (ss.drop (k + 1)).filterMap id := by
+                conv => lhs; rw [hsplit]
+                simp [List.filterMap_append]
+              have hfm' : (ss.set k none).filterMap id =
+                  (ss.take k).filterMap id ++ (ss.drop (k + 1)).filterMap id := by
+                rw [hset none]; simp [List.filterMap_append]
+              rcases hrest (ss.set k none) (by rw [hstep]) (by rw [hstep]) with ⟨m, h1, h2⟩ | ⟨rfl, h2⟩
+              · refine ⟨m, ?_, ?_⟩
+                · rw [hfm]; exact h1.insert_nil _ _ hfm'
+                · by_cases hg' : allGone (ss.set k none) = true
+                  · have : m = [] := by
+                      rw [filterMap_allGone _ hg'] at h1; exact Interleaving.of_nil h1
+                    subst this
+                    simp only [idle, hg', if_true]; exact .done
+                  · simp only [idle, hg']; exact .pending h2
+              · refine ⟨[], ?_, ?_⟩
+                · rw [hfm]
+                  have : Interleaving ((ss.set k none).filterMap id) [] := by
+                    rw [filterMap_allGone _ h2]; exact .nil (by simp)
+                  exact this.insert_nil _ _ hfm'
+                · simp only [idle, h2, if_true, schedEvents]; exact .done
+            | cons r rest =>
+              have hstep : schedStep ss (some k) = (ss.set k (some rest), .elem r) := by
+                simp [schedStep, advance, hk]
+              rw [hstep] at hgone ⊢
+              have hfm : ss.filterMap id =
+                  (ss.take k).filterMap id ++ (r :: rest) :: (ss.drop (k + 1)).filterMap id := by
+                conv => lhs; rw [hsplit]
+                simp [List.filterMap_append]
+              have hfm' : (ss.set k (some rest)).filterMap id =
+                  (ss.take k).filterMap id ++ rest :: (ss.drop (k + 1)).filterMap id := by
+                rw [hset (some rest)]; simp [List.filterMap_append]
+              have hnot : allGone (ss.set k (some rest)) = false := by
+                cases hgo : allGone (ss.set k (some rest)) with
+                | false => rfl
+                | true =>
+                  have := filterMap_allGone _ hgo
+                  rw [hfm'] at this; simp at this
+              rcases hrest (ss.set k (some rest)) (by rw [hstep]) (by rw [hstep]) with ⟨m, h1, h2⟩ | ⟨rfl, h2⟩
+              · refine ⟨r :: m, ?_, .elem h2⟩
+                rw [hfm]
+                refine Interleaving.cons (i := ((ss.take k).filterMap id).length) (rest := rest) (by simp) ?_
+                rw [hfm'] at h1
+                simpa using h1
+              · rw [hnot] at h2; cases h2
+
+theorem feed_elems (m : List Res) (rest : List Inner) : Feed m (m.map Inner.elem ++ .done :: rest) := by
+  induction m with
+  | nil => exact .done
+  | cons r m ih => exact .elem ih
+
+theorem absTimes_snd (t : Nat) (l : List (Nat × Res)) : (absTimes t l).map Prod.snd = l.map Prod.snd := by
+  induction l generalizing t with
+  | nil => rfl
+  | cons x l ih => obtain ⟨d, r⟩ := x; simp [absTimes, ih]
+
+theorem untimed_streams (svcs : List (Option (List (Nat × Res)))) :
+    untimed (svcs.filterMap (Option.map (absTimes 0))) =
+      (svcs.map (Option.map (List.map Prod.snd))).filterMap id := by
+  induction svcs with
+  | nil => rfl
+  | cons a svcs ih =>
+    cases a with
+    | none => simpa [untimed] using ih
+    | some l =>
+      simp only [untimed] at ih
+      simp [untimed, absTimes_snd, ih]
+
 end IrohModel.C29
